@@ -62,7 +62,7 @@ PROPS = {
     'C08': {
         'lean': 'C08',
         'corr': [_f('comp_xfer', 'corr')],
-        'oracles': [_x('C08')],
+        'oracles': [_x('C08'), _f('comp_args', 'provided_size_oracle')],
         'modelled': ['announce_done / done callbacks / on_queued ordering (Xfer model)', 'downloads: explorer only'],
     },
     'C10': {
@@ -146,7 +146,7 @@ PROPS = {
     },
     'C16': {
         'lean': 'C16',
-        'corr': [_f('comp_defer', 'corr')],
+        'corr': [_f('comp_defer', 'corr'), _f('comp_download', 'corr')],
         'oracles': [_f('comp_defer', 'oracle'), _f('comp_defer', 'manager_oracle')],
         'modelled': ['download.DownloadNonSeekableOutputManager.queue_file_io_task with 2-3 request threads: oracle under the scheduler', 'download.DeferQueue (heap modelled as a list sorted by (offset, length))'],
     },
